@@ -527,10 +527,10 @@ static void item_begin(qitem *it) {
 	if ((G->oracles & O_SUSPEND) && qn->inactive && !qn->activated_call)
 		h_viol("inactive-start", "item %d started on q%d before dispatch_activate was called", it->id, it->q);
 	// C06 (b), (c): definitely suspended windows
-	if ((G->oracles & O_SUSPEND) && qn->susp_ret_minus_res_call > 0) {
+	if ((G->oracles & O_SUSPEND) && qn->susp_ret_minus_res_call > 0 && !(it->opkind == OP_APPLY && it->apply_index > 0 && qn->kind == QK_SERIAL)) {   // (later iterations of an apply on a serial queue continue the one synchronous item that is already running)
 		if (qn->window_onqueue)
 			h_viol("suspended-start", "item %d started on q%d while it was suspended from one of its own items (suspends returned - resumes called = %d)", it->id, it->q, qn->susp_ret_minus_res_call);
-		else if (qn->kind == QK_SERIAL) {
+		else if (qn->kind == QK_SERIAL && !(it->opkind == OP_APPLY && it->apply_index > 0)) {   // (the iterations of an apply on a serial queue are one synchronous item)
 			qn->window_starts++; RES.counters[QC_SUSP_COMMITTED]++;
 			if (qn->window_starts > 1)
 				h_viol("suspended-start", "%d items started on serial q%d inside one suspended interval (at most the committed one may)", qn->window_starts, it->q);
@@ -546,6 +546,16 @@ static void item_begin(qitem *it) {
 		if (it->barrier && qn->running > 0)
 			h_viol("barrier-overlap", "barrier item %d started on concurrent q%d while %d other item(s) were running (last %d)", it->id, it->q, qn->running, qn->last_item);
 	}
+	// C04 / C05 over hierarchies: a queue below a concurrent queue takes part in it like a reader, so nothing that runs
+	// through a concurrent ancestor overlaps a barrier item of that ancestor (items of moved queues are left out: their
+	// chain is not fixed)
+	if ((G->oracles & O_BARRIER) && qn->retarget_to < 0) {
+		for (int a = qn->target; a >= 0; a = Q[a].target) if (Q[a].kind == QK_CONC && Q[a].running_barrier > 0)
+			h_viol("barrier-overlap", "item %d (op #%d %s on q%d) started while barrier item %d of concurrent q%d, which q%d runs through, was running", it->id, it->op_idx, opnames[it->opkind], it->q, Q[a].last_item, a, it->q);
+		if (it->barrier && qn->kind == QK_CONC && qn->through_running > 0)
+			h_viol("barrier-overlap", "barrier item %d started on concurrent q%d while %d item(s) of queues that run through it were running", it->id, it->q, qn->through_running);
+	}
+	if (qn->retarget_to < 0) for (int a = qn->target; a >= 0; a = Q[a].target) Q[a].through_running++;
 	// a queue narrowed with dispatch_queue_set_width never has more *asynchronously run* items in flight than its
 	// width: asynchronous items and the helper threads of dispatch_apply reserve width before they run. Synchronous
 	// callers bring their own thread and are admitted beyond the width by design (_dq_state_is_sync_runnable), and so
@@ -572,6 +582,7 @@ static void item_end(qitem *it) {
 	qnode *qn = &Q[it->q];
 	if (it->holds_width) for (int q = it->q; q >= 0; q = Q[q].target) if (Q[q].kind == QK_CONC && Q[q].width) Q[q].width_running--;
 	qn->running--; if (it->barrier) qn->running_barrier--;
+	if (qn->retarget_to < 0) for (int a = qn->target; a >= 0; a = Q[a].target) Q[a].through_running--;
 	if (it->dom >= 0) Q[it->dom].dom_running--;
 	it->result = pay(RC.seed, it->id, 7); it->result_ck = ~it->result;
 	it->end = h_stamp();
